@@ -67,6 +67,9 @@
 (* invariants of the Properties section (SigTree_C01m_*.cfg):              *)
 (*  - FingerprintAnyCert: getCertBasedOnFingerprint accepts when ANY       *)
 (*    certificate in KeyInfo has the fingerprint; all of them become roots *)
+(*  - FingerprintPrefixMatch: the configured fingerprint string and the   *)
+(*    computed one are compared over the length of the shorter one only:   *)
+(*    an empty / abbreviated string matches (SigTree_C01m_fpprefix.cfg)    *)
 (*  - ResponseFromDocumentRoot: the Response handed to parseResponse is    *)
 (*    the first element named Response in the DOCUMENT, not the child of   *)
 (*    the ArtifactResponse whose signature was verified                    *)
@@ -266,8 +269,13 @@ EM(certs) == KD("encryption", TRUE, certs, 1)
 \*   pin : IDPCertificate ("-" | certificate | "bad")
 \*   fp  : the certificate whose fingerprint is in IDPCertificateFingerprint ("-" = not set)
 \*   alg : IDPCertificateFingerprintAlgorithm ("-" | "sha1" | "sha256" | "sha512")
-\*   fmt : how the fingerprint string was written: "canon" (upper-case hex, colons, computed with alg) |
-\*         "lower" (lower-case hex) | "otheralg" (computed with the other supported algorithm)
+\*   fmt : WHAT STRING is configured: "canon" (the complete fingerprint of fp: upper-case hex, colons, computed
+\*         with alg) | "lower" (lower-case hex) | "otheralg" (computed with the other supported algorithm) |
+\*         "empty" (the empty string - a pointer to "", an unset variable handed over; fp is then only a place
+\*         holder) | "prefix" (abbreviated: a non-empty PROPER prefix of the canonical fingerprint of fp, long
+\*         enough that no other certificate of the model starts with it).  fp may be "Katt" here: the string is
+\*         then an abbreviation of the fingerprint of the attacker's own certificate (for a short abbreviation
+\*         the attacker mints certificates until one fits; the harness takes the one he already has)
 TC(name, md, pin, fp, alg, fmt) == [name |-> name, md |-> md, pin |-> pin, fp |-> fp, alg |-> alg, fmt |-> fmt]
 MdOnly(name, md)        == TC(name, md, "-", "-", "-", "canon")
 Pinned(name, pin, md)   == TC(name, md, pin, "-", "-", "canon")
@@ -342,7 +350,13 @@ DigestOK(e, p, s, c) == IF s.cov = "self" THEN Len(p) = 1           \* AttackerS
 \* the certificates of ALL its Signature children, in document order
 PathCerts(e, c) == LET sigs == SelectSeq([i \in 1..Len(e.ch) |-> i], LAMBDA i : e.ch[i].k = "Sig")
                    IN Flat([j \in 1..Len(sigs) |-> CertsOf(e.ch[sigs[j]].ki, e.ch[sigs[j]], c)])
-FpMatches(t, x) == t.fmt = "canon" /\ x = t.fp                       \* string comparison of the fingerprints
+\* the comparison of the configured string with the computed fingerprint of certificate x: string EQUALITY -
+\* an empty or abbreviated string equals no fingerprint.
+\* (deviation FingerprintPrefixMatch: compared over the length of the shorter string only - the empty string
+\* "matches" every certificate, an abbreviation every certificate whose fingerprint starts with it)
+FpMatches(t, x) == IF "FingerprintPrefixMatch" \in Deviations
+                   THEN t.fmt = "empty" \/ (t.fmt \in {"canon", "prefix"} /\ x = t.fp)
+                   ELSE t.fmt = "canon" /\ x = t.fp
 
 \* getCertBasedOnFingerprint(el): the FIRST element of that path is parsed, hashed with the configured
 \* algorithm and compared with the configured string; that one certificate is the only root
@@ -694,9 +708,21 @@ RunCfgs == { RunCfgSeq[i] : i \in 1..Len(RunCfgSeq) }
 \*                                    omitted = both uses) - never one published for encryption only.
 \* Nothing that is not a certificate is a key.  (Where both a pinned certificate and a fingerprint are set the
 \* statement does not say which wins: the union is used, which can only make the check more lenient.)
+\* "A certificate with that fingerprint": the configured string IS the fingerprint of the certificate.  A string
+\* that is the complete fingerprint of no certificate - the empty string, an abbreviation - names nothing: no
+\* certificate "has" it, and whoever may pick the certificate that "starts with" it picks the trust root.  So
+\* the empty string trusts nothing, and an abbreviation never makes a certificate trusted that is not an IdP
+\* certificate (the attacker's own).  For an abbreviation of an IdP certificate's fingerprint the lenient reading
+\* is kept, as for the other ways of writing that certificate's fingerprint differently (lower case, other
+\* algorithm): content the IdP signed with that key may be returned or not (never MustAccept: not Clean),
+\* everything else is untrusted.
 \* TrustedKeys(t) reads the SP configuration and nothing else - no part of a message, no resemblance.
 MdSigningUse(md) == UNION { Range(md[i].certs) : i \in { j \in 1..Len(md) : md[j].use \in {"signing", ""} } }
-TrustedKeys(t) == Certs \cap (IF t.pin # "-" \/ t.fp # "-" THEN {t.pin, t.fp} ELSE MdSigningUse(t.md))
+AttackerCerts == {"Katt", "Klook"}                                   \* made by the attacker for his own key
+FpNamed(t) == IF t.fp = "-" \/ t.fmt = "empty" THEN {}
+              ELSE IF t.fmt = "prefix" THEN {t.fp} \ AttackerCerts
+              ELSE {t.fp}
+TrustedKeys(t) == Certs \cap (IF t.pin # "-" \/ t.fp # "-" THEN {t.pin} \cup FpNamed(t) ELSE MdSigningUse(t.md))
 \* "an XML signature verifying UNDER one of the IdP certificates the SP is configured to trust": made with the
 \* private key that belongs to the public key of such a certificate
 VerifiesUnderTrusted(k, t) == \E x \in TrustedKeys(t) : CertKey(x) = CertKey(k)
@@ -875,6 +901,13 @@ TFp == << Fingerp("fp1-sha256:md=none", "Kidp1", "sha256", Md("none")), Fingerp(
           TC("alg-nofp:md=s1", Md("s1"), "-", "-", "sha256", "canon"),           \* algorithm without fingerprint
           TC("pin1+fp1-sha256:md=s1", Md("s1"), "Kidp1", "Kidp1", "sha256", "canon"),   \* both ways at once
           TC("pin1+fp2-sha256:md=s2", Md("s2"), "Kidp1", "Kidp2", "sha256", "canon") >>
+\* (3b) WHAT STRING is configured as the fingerprint, besides the complete one of Kidp1 (right when the IdP signs
+\*      with Kidp1, wrong when it signs with Kidp2 - the configurations above): the empty string, an
+\*      abbreviation of Kidp1's fingerprint, an abbreviation of the fingerprint of the attacker's certificate
+TFpStr == << TC("fpempty-sha256:md=s1", Md("s1"), "-", "Kidp1", "sha256", "empty"),
+             TC("fp1pfx-sha256:md=none", Md("none"), "-", "Kidp1", "sha256", "prefix"),
+             TC("fpattpfx-sha256:md=s1", Md("s1"), "-", "Katt", "sha256", "prefix"),
+             TC("fpattpfx-sha512:md=none", Md("none"), "-", "Katt", "sha512", "prefix") >>
 TrustCfgs == TMd \o TPin \o TFp
 \* (4) the trusted certificate carries a SubjectKeyIdentifier extension (what openssl and most CAs emit), and the
 \*     IdP sends that certificate: from the metadata (one / several signing keys), pinned (the metadata lists
@@ -882,7 +915,7 @@ TrustCfgs == TMd \o TPin \o TFp
 TSki == << MdOnly("md:s1k", Md("s1k")), MdOnly("md:s1ks2e", Md("s1ks2e")),
            Pinned("pin1k:md=none", "Kidp1k", Md("none")), Pinned("pin1k:md=s2", "Kidp1k", Md("s2")),
            Fingerp("fp1k-sha256:md=none", "Kidp1k", "sha256", Md("none")) >>
-TrustCfgsAll == TrustCfgs \o TSki
+TrustCfgsAll == TrustCfgs \o TSki \o TFpStr
 
 \* every trust configuration x the key the IdP signs with
 RECURSIVE BothKeys(_)
@@ -895,7 +928,12 @@ RECURSIVE SkiKeys(_)
 SkiKeys(ts) == IF ts = <<>> THEN <<>>
                ELSE << [t |-> Head(ts), g |-> "Kidp1k"], [t |-> Head(ts), g |-> "Kidp2"] >> \o SkiKeys(Tail(ts))
 RunsSki   == SkiKeys(TSki) \o << [t |-> TSki[1], g |-> "Kidp1"], [t |-> TMd[2], g |-> "Kidp1k"] >>     \* md:s1k, md:s1
-RunsTrust == BothKeys(TrustCfgs) \o RunsSki
+\* the configurations of (3b), the IdP signing with Kidp1 (under a string that names no certificate the key
+\* the IdP uses makes no difference).  (Order: the quick tier's harness spreads the one-step documents over
+\* the run indices with a rotation that leaves some residues thin; the first two land on well-served ones.)
+RunsFpStr == << [t |-> TFpStr[1], g |-> "Kidp1"], [t |-> TFpStr[3], g |-> "Kidp1"], [t |-> TFpStr[2], g |-> "Kidp1"],
+                [t |-> TFpStr[4], g |-> "Kidp1"] >>
+RunsTrust == BothKeys(TrustCfgs) \o RunsSki \o RunsFpStr
 ASSUME TSki[1].name = "md:s1k" /\ TMd[2].name = "md:s1"
 
 \* the four configurations the attack exploration has always used, under their old names
